@@ -43,7 +43,7 @@ enum { CL_REPL_DIFF, CL_REPL_SAME, CL_DEL_NOTLAST, CL_DEL_ABSENT, CL_GREW, CL_AL
        CL_ALIAS_MOVED, CL_ALIAS_REALLOC, CL_SH_VAR, CL_SH_FIXED, CL_NAMED_SHNAME, CL_PREFIX, CL_TYPECONF,
        CL_BIG, CL_MAXSZ, CL_EXACTFIT, CL_SIZE0, CL_IMPORT_OVER, CL_IMPORT_RESIZE, CL_CMP_EQ, CL_CMP_VALUE,
        CL_CMP_SUBSET, CL_CMP_OTHER, CL_DUP, CL_COPY, CL_DUP_THEN_MUT, CL_NEG_INT, CL_FLOAT_SPECIAL,
-       CL_POOL, CL_MULTI, CL_SIZE_BYTE, CL_FAULT, CL_FAULT_FAILED };
+       CL_POOL, CL_MULTI, CL_SIZE_BYTE, CL_FAULT, CL_FAULT_FAILED, CL_ITER_COPY };
 static const char *const class_names[] = {
     "replace_var_different_size", "replace_var_same_size", "delete_not_last", "delete_absent_refused",
     "storage_grew", "alias_source", "alias_same_key_resized", "alias_source_moved_by_delete", "alias_with_realloc",
@@ -52,7 +52,7 @@ static const char *const class_names[] = {
     "import_overwrites", "import_overwrites_different_size", "cmp_models_equal", "cmp_one_value_differs",
     "cmp_strict_subset", "cmp_other_difference", "dup", "copy", "mutation_after_dup_or_copy", "negative_int_or_rational",
     "float_special", "pool_depth_gt0", "three_or_more_dicts", "tlv_size_crosses_255",
-    "allocation_refused_inside_operation", "operation_failed_after_refused_allocation", NULL };
+    "allocation_refused_inside_operation", "operation_failed_after_refused_allocation", "iteration_cursor_is_a_copy_of_the_name", NULL };
 
 /* names of the shorthand attributes as documented next to enum udict_type */
 static const char *const sh_doc[NSH] = {
@@ -99,6 +99,7 @@ struct ctx {
     uint64_t hash;
     uint64_t cls;
     bool faultmode;
+    unsigned walks;
     const char *opname;
     char what[200];
     int touched;                        /* dictionary changed by the current operation, or -1 */
@@ -306,7 +307,17 @@ static void check_dict(struct ctx *c, int di)
         seen[k] = 1;
         if (!m->e[k].present) { FAILK("iterate-absent", "after %s: d%d iteration visits %s, which is not present", c->what, di, key_str(c, k)); return; }
         m->order[n++] = k;
+        /* "finds an attribute of the given name and type and returns the next one": the cursor is a name, not a pointer into the
+         * dictionary -- every other walk hands back an equal string held elsewhere */
+        if (name != NULL && ((c->walks + n) & 1)) {
+            static char namecopy[2][512];
+            char *dst = namecopy[n & 1];
+            snprintf(dst, 512, "%s", name);
+            name = dst;
+            CLS(CL_ITER_COPY);
+        }
     }
+    c->walks++;
     if (n != m->npresent) {
         int miss = -1; for (int k = 0; k < NKEYS; k++) if (m->e[k].present && !seen[k]) { miss = k; break; }
         FAILK("iterate-missing", "after %s: d%d iteration visits %d attributes, %d are present (e.g. %s not visited)", c->what, di, n, m->npresent, miss >= 0 ? key_str(c, miss) : "?");
